@@ -424,3 +424,7 @@ Definition i_spec_session (st : istate) (key : N) : bool :=
   match s_sess (es_s (is_e st)) !! key with Some _ => true | None => false end.
 Definition withdrawn_of (o : option (bool * N)) : option (bool * N) :=
   match o with Some (_, a) => Some (false, a) | None => None end.
+
+(* no source names the id the register hands out next as its parent (ids are handed out in order: C14) *)
+Definition next_id_unused (r : reg) : Prop :=
+  forall id inf, infos r !! id = Some inf -> i_parent inf <> Some (serial r).
